@@ -261,11 +261,17 @@ def with_alarm(seconds, fn, *a):
 
 
 def load_known_findings():
-    p = os.path.join(VERIF, 'findings', 'known_findings.json')
-    if not os.path.exists(p):
-        return {'known': [], 'fixed': []}
-    with open(p) as fh:
-        return json.load(fh)
+    """All findings/*.json files (committed; never written at run time), merged."""
+    d = os.path.join(VERIF, 'findings')
+    res = {'known': [], 'fixed': []}
+    if os.path.isdir(d):
+        for f in sorted(os.listdir(d)):
+            if f.endswith('.json'):
+                with open(os.path.join(d, f)) as fh:
+                    j = json.load(fh)
+                res['known'].extend(j.get('known', []))
+                res['fixed'].extend(j.get('fixed', []))
+    return res
 
 
 def now():
